@@ -63,10 +63,21 @@ def classify(scn, viol):
     bank valid/locked."""
     if viol.get("oracle") == "c05.wait_bound" and viol.get("kind") == "cmd" and viol.get("releases", 10 ** 9) < viol.get("nports", 0):
         return "xbar-bank-hold"
+    # known finding mux-chooser-restart: the column-command chooser passed a pending request over more often than a round robin can
+    if viol.get("oracle") == "c05.wait_bound" and viol.get("kind") == "resp" and viol.get("nbm", 0) and viol.get("overtaken", 0) > viol["nbm"]:
+        return "mux-chooser-restart"
     return None
 
 
+MUX_WITNESS = {"core": {"clk_period_ps": 3628, "ctrl": {"bank_byte_alignment": 0, "cmd_buffer_buffered": False, "cmd_buffer_depth": 2, "read_time": 4, "refresh_postponing": 8, "with_auto_precharge": True, "with_refresh": True, "write_time": 16}, "databits": 32, "module": {"cls": "M393A2K40DB3", "kind": "lib", "speedgrade": None}, "nranks": 2, "phy": {"from": "model"}, "ports": [{"mode": "both"}, {"mode": "both"}, {"mode": "both"}], "rate": "1:4"}, "index": 0, "limits": {"drain_after": 1.5, "hang_ok": True, "run_for_bounds": 2.2, "tail": 1000000000, "wait_bound": "auto"}, "mode": "witness", "ports": [{"loop": True, "ops": [{"addr": 76563405, "id": 101000, "we": 0}]}, {"loop": True, "ops": [{"addr": 536870607, "id": 200050, "we": 0}]}, {"loop": True, "ops": [{"addr": 3025, "id": 300050, "sel": 1270107138, "we": 1}]}], "property": "C05", "seed": 0}
+
+
 def witness(fid):
+    if fid == "mux-chooser-restart":
+        # minimised from VERIF_SEED=30 run 56: two ports each re-reading one word (bank machines 7 and 8) and one port re-writing
+        # one word (bank machine 23), read_time=4: every read window serves bank machine 7 again
+        import copy
+        return copy.deepcopy(MUX_WITNESS)
     if fid != "xbar-bank-hold":
         return None
     import random
